@@ -126,6 +126,7 @@ OBLIGATIONS['C16'] = [
     ('proofs::label_int_order', 'kani'),
 ]
 OBLIGATIONS['C18'] = [
+    ('context::lemma_kdf_fixed_point', 'lemma'), ('context::lemma_supp_pub_fixed_point', 'lemma'), ('context::lemma_party_reenc', 'lemma'),
     ('iana::CwtClaimName::*', 'body'), ('registry_proofs::registry_CwtClaimName', 'kani'),
     ('cwt::ClaimsSet::from_cbor_value', 'body'), ('cwt::ClaimsSet::to_cbor_value', 'body'), ('cwt::Timestamp::from_cbor_value', 'body'), ('cwt::Timestamp::to_cbor_value', 'body'),
     ('cwt::lemma_claims_*', 'lemma'), ('vroundtrip_cwt::lemma_claims_fixed_point', 'lemma'), ('vroundtrip_cwt::lemma_claims_res_deterministic', 'lemma'),
@@ -227,6 +228,7 @@ OBLIGATIONS['C07'] = [
     # fixed point (decode -> encode -> decode -> encode) for header maps, COSE_Signature, every message type and recipients
     # at any nesting, and for CWT claims sets
     ('vroundtrip::*', 'lemma'), ('vroundtrip_cwt::*', 'lemma'), ('vroundtrip_key::*', 'lemma'),
+    ('context::lemma_party_*', 'lemma'), ('context::lemma_supp_pub_*', 'lemma'), ('context::lemma_kdf_*', 'lemma'),
 ]
 OBLIGATIONS['C08'] = [
     ('iana::Algorithm::*', 'body'), ('iana::HeaderParameter::*', 'body'), ('iana::CoapContentFormat::*', 'body'), ('registry_proofs::registry_Algorithm', 'kani'), ('registry_proofs::registry_HeaderParameter', 'kani'), ('registry_proofs::registry_CoapContentFormat', 'kani'),
